@@ -9,11 +9,15 @@ RULE = ("kernel level: every non-decreasing multiset of <=4 (quick) timestamps x
         "epochs before/after/between), three kernels (jitrestrict, jitrestrict_with_count, jitin_interval), compiled; "
         "API level: seeded sample of the same space through Ts/Tsd/TsdFrame/TsdTensor/TsGroup with tagged rows, random "
         "lattice scale; distinct = distinct (timestamps, set) order types; non-trivial = all (each differs in at least one comparison)")
-PROVED = ("restrict_selects (i in result <-> sample i in some closed interval; all sizes), restrict_ordered, "
-          "restrict_in_bounds; restrictCount_selects_like_restrict (jitrestrict_with_count returns the same index vector, any input); "
-          "C15 restrictCount_counts (one counter per interval, counters add up to the number of selected samples)")
-NOT_PROVED = ("row pairing values[ix] / labels / metadata / support of the result, idempotence, restrict(a).restrict(b) "
-              "vs a.intersect(b), constructor-with-support: decided by the oracle + correspondence run only")
+PROVED = ("restrict_selects (i in result <-> sample i in some closed interval; all sizes), restrict_ordered, restrict_in_bounds; "
+          "restrict_eq_filter / restrictT_eq (the result IS the original sequence filtered by 'lies in a closed interval': same order, same "
+          "multiplicity), restrict_rows_paired, restrict_idem (restricting again changes nothing), restrict_then + restrict_comp "
+          "(restrict(a).restrict(b) == restrict(a.intersect(b)) for samples farther than 1 us from every endpoint - via C02 "
+          "ISet_intersect_pointwise), new_support_eq_restrict (constructor with time_support == constructor then restrict); "
+          "restrictCount_selects_like_restrict (jitrestrict_with_count returns the same index vector, any input); "
+          "C15 restrictCount_counts")
+NOT_PROVED = ("labels / metadata / time support of the result object, TsGroup member-wise application: decided by the oracle + "
+              "correspondence run only")
 ASSUMPTIONS = ["timestamps of a series are non-decreasing and an IntervalSet is canonical (C04/C01 establish both)"]
 
 
